@@ -48,6 +48,7 @@ impl std::fmt::Display for Tok {
     }
 }
 #[derive(Debug, PartialEq, Eq, PartialOrd, Ord, Hash)]
+#[repr(align(32))]
 struct ZTok;
 thread_local! { static ZDROPS: std::cell::Cell<u64> = std::cell::Cell::new(0); }
 impl Drop for ZTok {
